@@ -20,6 +20,9 @@ negations with concrete witnesses (section "Witnesses"); each was confirmed on t
 namespace C16
 open Grep
 
+/-- UTF-8 bytes of a string literal, by a definition `decide` can evaluate. -/
+def utf8 (s : String) : Bytes := s.toList.flatMap String.utf8EncodeChar
+
 /-! ## Tie to the source -/
 
 /-- The five regex pattern texts assembled by `make_grep_line_regex` (regenerated from the
@@ -61,7 +64,7 @@ theorem json_sections (line : Bytes) (subs : List (Nat × Nat)) (h : spansOk lin
       matchSpans 0 secs = subs :=
   makeStyleSections_ok line subs h
 
-example : spansOk "  fn a(fn)".toUTF8.toList 0 [(2, 4), (7, 9)] = true := by decide
+example : spansOk (utf8 "  fn a(fn)") 0 [(2, 4), (7, 9)] = true := by decide
 
 /-- With tabs only in the leading indentation (`ind`; `rest` has no TAB) and all submatches
 behind it, `expand_tabs` + `make_style_sections` do not panic, the sections concatenate to
@@ -81,7 +84,7 @@ theorem json_sections_tabs (w : Nat) (ind rest : Bytes) (subs : List (Nat × Nat
   obtain ⟨secs, h1, h2, h3⟩ := makeStyleSections_ok _ _ h.1
   exact ⟨secs, h1, h2, h3, h.2⟩
 
-example : spansOk ([tab, tab] ++ "fn x".toUTF8.toList) 0 [(2, 4)] = true := by decide
+example : spansOk ([tab, tab] ++ utf8 "fn x") 0 [(2, 4)] = true := by decide
 
 /-! ## Plain-text format
 
@@ -103,10 +106,12 @@ theorem plain_round_trip_partial_numbered (p : Parsed) (h : fragNumbered p = tru
     parsePlain (fmtPlain p) = some p :=
   parsePlain_numbered p h
 
-example : fragNumbered { path := "etc/META-INF/co-7-fig.rs".toList, kind := .match_,
-    digits := some "12".toList, code := "see a.rs:3: and b.py-4-x".toList } = true := by decide
-example : fragNumbered { path := "src/de lta.rs".toList, kind := .context,
-    digits := some "58".toList, code := "  .x- foo.bar-baz: 7-".toList } = true := by decide
+example : fragNumbered
+    { path := "etc/META-INF/co-7-fig.rs".toList, kind := .match_, digits := some "12".toList,
+      code := "see a.rs:3: and b.py-4-x".toList } = true := by decide
+example : fragNumbered
+    { path := "src/de lta.rs".toList, kind := .context, digits := some "58".toList,
+      code := "  .x- foo.bar-baz: 7-".toList } = true := by decide
 
 /-- Fragment B — unnumbered line; path `[^:| ]+[^ ].ext` (ext 1–6) without `:`; no
 `.ext`-sep-number-sep look-alike anywhere in the line, no `.ext`-sep look-alike and no
@@ -115,8 +120,9 @@ theorem plain_round_trip_partial_unnumbered (p : Parsed) (h : fragUnnumbered p =
     parsePlain (fmtPlain p) = some p :=
   parsePlain_unnumbered p h
 
-example : fragUnnumbered { path := "src/co-7-fig.rs".toList, kind := .context, digits := none,
-    code := "    if self.source == Source::Unknown { x.y(); }".toList } = true := by decide
+example : fragUnnumbered
+    { path := "src/co-7-fig.rs".toList, kind := .context, digits := none,
+      code := "    if self.source == Source::Unknown { x.y(); }".toList } = true := by decide
 
 /-- Fragment C — extension-less name free of `:`, `-`, `=`, `.`; numbered or not; the code
 has no `.ext`-sep look-alike; an unnumbered line's code starts neither with a number
@@ -125,10 +131,12 @@ theorem plain_round_trip_partial_noext (p : Parsed) (h : fragNoExt p = true) :
     parsePlain (fmtPlain p) = some p :=
   parsePlain_noext p h
 
-example : fragNoExt { path := "bin/run me".toList, kind := .match_, digits := some "10".toList,
-    code := "test: unit-test end-to-end-test".toList } = true := by decide
-example : fragNoExt { path := "Makefile".toList, kind := .context, digits := none,
-    code := "\tcargo build --release".toList } = true := by decide
+example : fragNoExt
+    { path := "bin/run me".toList, kind := .match_, digits := some "10".toList,
+      code := "test: unit-test end-to-end-test".toList } = true := by decide
+example : fragNoExt
+    { path := "Makefile".toList, kind := .context, digits := none,
+      code := "\tcargo build --release".toList } = true := by decide
 
 /-! ## Emission -/
 
@@ -148,47 +156,60 @@ theorem one_row_per_hit_partial (cfg : Cfg) (style : GrepType) (lines : List Lin
 
 def exHit (path : String) (kind : Kind) (n : Option Nat) (code : String) : Hit :=
   { gtype := .classic, kind := kind, path := path.toList, num := n, prefixOk := true,
-    code := code.toUTF8.toList, subs := none }
+    code := utf8 code, subs := none }
 
-example : (attach <$> emit { outputType := some .ripgrep, tabWidth := 4, headerAsHunkHeader := true }
-    [.hit (exHit "a.rs" .match_ (some 3) "\tx"), .hit (exHit "a.rs" .context (some 4) ""), .other "--".toUTF8.toList,
-     .hit (exHit "a.rs" .context (some 9) "y"), .hit (exHit "b c.rs" .match_ (some 1) "z")]) =
-    .ok [(some "a.rs".toList, some 3, "    x".toUTF8.toList), (some "a.rs".toList, some 4, []),
-         (some "a.rs".toList, some 9, "y".toUTF8.toList), (some "b c.rs".toList, some 1, "z".toUTF8.toList)] := by
+/-- A stream satisfying the hypotheses: two paths, a `--` line, tabs, an empty numbered line. -/
+def exStream : List Line :=
+  [.hit (exHit "a.rs" .match_ (some 3) "\tx"), .hit (exHit "a.rs" .context (some 4) ""), .other (utf8 "--"),
+   .hit (exHit "a.rs" .context (some 9) "y"), .hit (exHit "b c.rs" .match_ (some 1) "z")]
+
+example : (hitsOf exStream).all (hitOk { outputType := some .ripgrep, tabWidth := 4, headerAsHunkHeader := true } .ripgrep) = true := by
   decide
 
 /-! ## Witnesses: where the unchanged code breaks the full statements (confirmed on the binary) -/
 
+/-- `e` is the panic `p`. -/
+def panicsWith {α : Type} (e : Except Panic α) (p : Panic) : Bool :=
+  match e with
+  | .error q => decide (q = p)
+  | .ok _ => false
+
+/-- `e` is the value `v`. -/
+def yields {α : Type} [DecidableEq α] (e : Except Panic α) (v : α) : Bool :=
+  match e with
+  | .ok x => decide (x = v)
+  | .error _ => false
+
 /-- DESIGN defect #7: a submatch reaching beyond the text panics in `make_style_sections`. -/
 theorem json_span_out_of_range_panics :
-    makeStyleSections "abc".toUTF8.toList [(1, 9)] = .error .sliceOutOfRange := by decide
+    panicsWith (makeStyleSections (utf8 "abc") [(1, 9)]) .sliceOutOfRange = true := by decide
 
 /-- Valid `rg --json` output: non-ASCII text before a TAB and a submatch before the TAB. The
 uniform shift of `expand_tabs` moves the offset into a character: panic. -/
 theorem json_tab_shift_leaves_char_boundary :
-    codeSections { outputType := none, tabWidth := 8, headerAsHunkHeader := true }
+    panicsWith (codeSections { outputType := none, tabWidth := 8, headerAsHunkHeader := true }
       { gtype := .ripgrep, kind := .match_, path := "a.rs".toList, num := some 3, prefixOk := true,
-        code := "éééé\tfoo".toUTF8.toList, subs := some [(0, 2)] } = .error .sliceNotCharBoundary := by
-  rfl
+        code := (utf8 "éééé\tfoo"), subs := some [(0, 2)] }) .sliceNotCharBoundary = true := by
+  decide
 
 /-- `a.rs:0:x`: `n - 1` underflows (builds with overflow checks). -/
 theorem line_number_zero_panics :
-    emit { outputType := none, tabWidth := 8, headerAsHunkHeader := true }
-      [.hit (exHit "a.rs" .match_ (some 0) "x")] = .error .lineNumberZero := by rfl
+    panicsWith (emit { outputType := none, tabWidth := 8, headerAsHunkHeader := true }
+      [.hit (exHit "a.rs" .match_ (some 0) "x")]) .lineNumberZero = true := by decide
 
 /-- `one_row_per_hit` at full strength is false: in ripgrep style an unnumbered line with
 empty code (a blank context line of `grep -C` without `-n`) produces no row at all. -/
 theorem one_row_per_hit_fails_empty_unnumbered :
-    attach <$> emit { outputType := some .ripgrep, tabWidth := 8, headerAsHunkHeader := true }
-      [.hit (exHit "a.rs" .match_ none "let x"), .hit (exHit "a.rs" .context none "")] =
-    .ok [(some "a.rs".toList, none, "let x".toUTF8.toList)] := by rfl
+    yields (attach <$> emit { outputType := some .ripgrep, tabWidth := 8, headerAsHunkHeader := true }
+      [.hit (exHit "a.rs" .match_ none "let x"), .hit (exHit "a.rs" .context none "")])
+      [(some "a.rs".toList, none, utf8 "let x")] = true := by decide
 
 /-- Classic style: the function-context header of `git grep -p` without `-n` is handed line
 number 0 (`unwrap_or(0)`), which the hunk-header writer prints. -/
 theorem classic_header_shows_zero :
-    attach <$> emit { outputType := none, tabWidth := 8, headerAsHunkHeader := true }
-      [.hit (exHit "src/a.rs" .contextHeader none "fn main() {")] =
-    .ok [(some "src/a.rs".toList, some 0, "fn main() {".toUTF8.toList)] := by rfl
+    yields (attach <$> emit { outputType := none, tabWidth := 8, headerAsHunkHeader := true }
+      [.hit (exHit "src/a.rs" .contextHeader none "fn main() {")])
+      [(some "src/a.rs".toList, some 0, utf8 "fn main() {")] = true := by decide
 
 /-- `Makefile--x` (context line of an extension-less, separator-free name; code `-x`): the
 last path character class of the fourth regex (`[^:\ ]`) admits `-`, so the path is read as
